@@ -5,6 +5,7 @@ import (
 	"context"
 	"errors"
 	"fmt"
+	"io"
 	"log"
 	"strings"
 	"time"
@@ -82,6 +83,7 @@ type runState struct {
 	obsSeq       []uint64   // per graph: first fired foreign receive on the goroutine that called Run
 	dfs          [][]string
 	dfsErr       []error
+	dfsSkipped   []bool // no sequential DepthFirstSort before the run: the concurrent ones come first
 	innerRunning bool   // the inner graph's Run (Scenario.Inner) has been called and has not returned
 	again        bool   // the Run being judged is a repetition on an unchanged graph
 	lockProbe    string // the Task the post-run lock probe is waiting for ("" = not probing)
@@ -213,6 +215,27 @@ func (w *simWriter) Write(p []byte) (int, error) {
 	return total, nil
 }
 
+// lockedWriter is a sink that is safe for concurrent use the usual way: it embeds a mutex, Write
+// takes it, and - the mutex being embedded - Lock and Unlock are part of its method set.
+type lockedWriter struct {
+	*simWriter
+	mu simrt.Mutex
+}
+
+func (w *lockedWriter) Lock()   { w.mu.Lock() }
+func (w *lockedWriter) Unlock() { w.mu.Unlock() }
+func (w *lockedWriter) Write(p []byte) (int, error) {
+	w.mu.Lock()
+	defer w.mu.Unlock()
+	return w.simWriter.Write(p)
+}
+
+// noCopyWriter carries the "noCopy" vet marker: Lock and Unlock exist and do nothing.
+type noCopyWriter struct{ *simWriter }
+
+func (noCopyWriter) Lock()   {}
+func (noCopyWriter) Unlock() {}
+
 // deadlineCtx behaves like a context.WithDeadline/WithTimeout context whose expiry instant is
 // decided by the scenario: Done() is the embedded cancel context's channel (so the standard library
 // still recognises it as one of its own and starts no watcher goroutine), Err() reports
@@ -316,6 +339,7 @@ func Execute(sc *Scenario, ch simrt.Chooser, keepTrace bool) *Result {
 	r.snapAtt, r.snapFinal, r.snapInFn, r.snapNEnt = make([][]int, ng), make([][]string, ng), make([][]bool, ng), make([]int, ng)
 	r.dfs = make([][]string, ng)
 	r.dfsErr = make([]error, ng)
+	r.dfsSkipped = make([]bool, ng)
 	r.writes = make([]bytes.Buffer, ng)
 	r.inWrite = make([]bool, ng)
 	for i := 0; i < n; i++ {
@@ -512,6 +536,19 @@ func (r *runState) taskFn(i, alt int, cancel context.CancelFunc) getoptions.Comm
 		if a.Cancel == "entry" {
 			r.doCancel(cancel, "cancel_in_task")
 		}
+		if sr := a.SetRetries; sr != nil && sc.Phase2 == nil && !sc.Again {
+			// the dependent cannot have started: it needs this task to return nil first
+			gr := r.graphs[g]
+			simrt.Lock()
+			if r.ms[g].Exists[sr.T] && sr.R < r.ms[g].Retries[sr.T] {
+				r.ms[g].Retries[sr.T] = sr.R
+				r.res.Faults["retries_lowered_by_a_dependency"]++
+				simrt.Unlock()
+				gr.TaskRetries(gr.Task(r.id(sr.T)), sr.R)
+			} else {
+				simrt.Unlock()
+			}
+		}
 		if a.DFS {
 			r.probeDFS(g, fmt.Sprintf("asked by t%02d while it runs", i))
 		}
@@ -624,6 +661,9 @@ func (r *runState) main() {
 	sc := r.sc
 	ng, n := r.ng, sc.N
 	dag.Logger = log.New(logSink{r}, "", 0)
+	if sc.LogDiscard {
+		dag.Logger = log.New(io.Discard, "", 0) // the documented way to silence the package
+	}
 	ctx, cancel := context.WithCancel(context.Background())
 	defer cancel()
 	if sc.Cancel.Deadline {
@@ -679,7 +719,14 @@ func (r *runState) main() {
 			gr.SetSerial()
 		}
 		if sc.Buffer {
-			gr.SetOutputBuffer(&simWriter{r, g})
+			switch sw := (&simWriter{r, g}); sc.Writer.Locker {
+			case "mutex":
+				gr.SetOutputBuffer(&lockedWriter{simWriter: sw})
+			case "noop":
+				gr.SetOutputBuffer(noCopyWriter{sw})
+			default:
+				gr.SetOutputBuffer(sw)
+			}
 		}
 		apply := func(gr *dag.Graph, g int, calls []Call) {
 			for _, c := range calls {
@@ -732,7 +779,13 @@ func (r *runState) main() {
 		applyCalls = apply
 		apply(gr, g, sc.Build)
 		graphs[g] = gr
-		// DepthFirstSort is read-only; observe it before the run, under the seeded map order.
+		// DepthFirstSort is read-only; observe it before the run, under the seeded map order - unless
+		// monitors are about to ask concurrently: then theirs (and Run's own) are the first traversals
+		// this graph ever sees.
+		if sc.DFSProbe > 0 && sc.ChSeed%2 == 0 {
+			r.dfsSkipped[g] = true
+			continue
+		}
 		vs, err := gr.DepthFirstSort()
 		r.dfsErr[g] = err
 		for _, v := range vs {
@@ -832,7 +885,7 @@ func (r *runState) main() {
 				}
 				vs, err := graphs[0].DepthFirstSort()
 				simrt.Lock()
-				r.dfsErr[0], r.dfs[0] = err, nil
+				r.dfsErr[0], r.dfs[0], r.dfsSkipped[0] = err, nil, false
 				for _, v := range vs {
 					r.dfs[0] = append(r.dfs[0], string(v.ID))
 				}
@@ -1122,7 +1175,9 @@ func (r *runState) posthocGraph(g int, final bool) {
 	sc, m, res := r.sc, r.ms[g], r.res
 	n := sc.N
 	// O16d DepthFirstSort (observed before the run)
-	r.checkDFS(g, r.dfs[g], r.dfsErr[g], "")
+	if !r.dfsSkipped[g] {
+		r.checkDFS(g, r.dfs[g], r.dfsErr[g], "")
+	}
 	if !r.returned[g] {
 		return
 	}
